@@ -43,3 +43,7 @@ func (dv *Router) VerifAdvertSyncOnInterest(args ndn.InterestHandlerArgs, active
 func (dv *Router) VerifProcessPrefixData(data ndn.Data, router *table.PrefixTableRouter) {
 	dv.processPrefixData(data, router)
 }
+
+// VerifPfxSvs returns the prefix-table sync group instance (Router.Start starts it; the harness starts
+// and feeds it itself so that sync updates reach onPfxSyncUpdate through the real SvSync).
+func (dv *Router) VerifPfxSvs() *ndn_sync.SvSync { return dv.pfxSvs }
